@@ -344,6 +344,10 @@ SPECS["C04"] = {
     ],
 }
 
+_C20_CONC = {"name": "conc", "engine": "conc", "flavour": "asan", "kind": "C20c", "nt": "C20.nt", "quick_count": 1000000, "thorough_count": 100000000, "budget_share": 0.3,
+             "rule": "concurrent part: generated programs in which writer threads issue single-token batches over their key groups while other threads call ldb_backup, under explored schedules; after the join every backup is opened as "
+                     "an independent database and judged like a scan whose interval is the ldb_backup call (contains everything acknowledged before the call, nothing begun after it returned, whole batches in program order); "
+                     "non-trivial = a backup whose interval overlaps a write"}
 for _p, _rule in (("C19", "histories (C01 generator weighted to flushes, per-level manual compactions, held snapshots) interleaved with `repair v` operations: the database is closed, the durable contents are computed "
                           "independently (reference table reader over every surviving table, reference log+batch decoder over every surviving log, newest sequence per key wins), metadata is lost or damaged in one of 6 ways "
                           "(delete CURRENT / MANIFEST / both, truncate MANIFEST, CURRENT naming a missing file, intact), ldb_repair + ldb_open run, and every key is read by ldb_get and by scans in both directions; the history then "
@@ -360,8 +364,13 @@ for _p, _rule in (("C19", "histories (C01 generator weighted to flushes, per-lev
             {"name": "plain", "engine": "hist", "flavour": "plain", "kind": _p, "nt": _p + ".nt", "rule": "same without sanitizers (higher case rate)", "quick_count": 100000, "thorough_count": 10000000,
              "eval_counter": "repairs" if _p == "C19" else "cases",
              "budget_share": 0.6, "seed_offset": 7777},
-        ],
+        ] + ([_C20_CONC] if _p == "C20" else []),
     }
+    if _p == "C20":
+        SPECS[_p]["parts"][0]["budget_share"] = 0.3
+        SPECS[_p]["parts"][1]["budget_share"] = 0.4
+        SPECS[_p]["quick_budget"] = 65
+        SPECS[_p]["assumptions"] = COMMON_ASSUME
 
 SPECS["C10"] = {
     "level": "exploration", "quick_budget": 60, "thorough_budget": 900,
